@@ -2,6 +2,7 @@
 C20 — a damaged exchange-rate cache cannot crash fend or yield wrong rates.
 -/
 import FendModel.Model.XRates
+import FendModel.Proofs.Utf8Boundary
 
 namespace Fend.C20
 open Fend.XRates
@@ -409,5 +410,129 @@ theorem un_lookup_verbatim (okRate : Bytes → Bool) (contents : Bytes) (now max
 theorem un_prefix_safe (okRate : Bytes → Bool) (good : Bytes) (n now maxAge : Nat) (cur rate : Bytes)
     (h : lookup .un okRate (good.take n) now maxAge cur = .ok (some rate)) : rate <:+: good :=
   (un_lookup_verbatim okRate _ now maxAge cur rate h).trans (List.take_prefix n good).isInfix
+
+
+/-! ### the UN file never panics either (valid UTF-8 is what `read_to_string` guarantees) -/
+
+private theorem n1 : cp "<f_curr_code>" ≠ [] ∧ (∀ b ∈ cp "<f_curr_code>", b < 128) ∧ (cp "<f_curr_code>").length = 13 := by
+  refine ⟨by decide, by decide, by decide⟩
+private theorem n2 : cp "</f_curr_code>" ≠ [] ∧ (∀ b ∈ cp "</f_curr_code>", b < 128) ∧ (cp "</f_curr_code>").length = 14 := by
+  refine ⟨by decide, by decide, by decide⟩
+private theorem n3 : cp "<rate>" ≠ [] ∧ (∀ b ∈ cp "<rate>", b < 128) ∧ (cp "<rate>").length = 6 := by
+  refine ⟨by decide, by decide, by decide⟩
+private theorem n4 : cp "</rate>" ≠ [] ∧ (∀ b ∈ cp "</rate>", b < 128) ∧ (cp "</rate>").length = 7 := by
+  refine ⟨by decide, by decide, by decide⟩
+
+/-- the scanning loop of the UN parser never panics on (a suffix at a character boundary of) valid UTF-8: every slice it
+takes starts right after an ASCII needle it has just found -/
+theorem unLoop_no_panic (okRate : Bytes → Bool) (S : Bytes) (hv : Fend.Ser.validUtf8 S = true) :
+    ∀ fuel off, off ≤ S.length → unLoop okRate fuel (S.drop off) ≠ .error .panic := by
+  intro fuel
+  induction fuel with
+  | zero => intro off _; simp [unLoop]
+  | succ fuel ih =>
+    intro off hoff h
+    unfold unLoop at h
+    split at h
+    · cases h
+    · cases hf1 : findSub (cp "<f_curr_code>") (S.drop off) with
+      | none => simp only [hf1] at h; split at h <;> cases h
+      | some start =>
+        simp only [hf1] at h
+        obtain ⟨hs1, ho1⟩ := slice_after_needle S hv off hoff _ n1.1 n1.2.1 start hf1
+        rw [n1.2.2] at hs1 ho1
+        rw [hs1] at h
+        simp only at h
+        cases hf2 : findSub (cp "</f_curr_code>") (S.drop (off + (start + 13))) with
+        | none => simp [hf2] at h
+        | some e1 =>
+          simp only [hf2] at h
+          obtain ⟨hs2, ho2⟩ := slice_after_needle S hv _ ho1 _ n2.1 n2.2.1 e1 hf2
+          rw [n2.2.2] at hs2 ho2
+          rw [hs2] at h
+          simp only at h
+          cases hf3 : findSub (cp "<rate>") (S.drop (off + (start + 13) + (e1 + 14))) with
+          | none => simp [hf3] at h
+          | some st =>
+            simp only [hf3] at h
+            obtain ⟨hs3, ho3⟩ := slice_after_needle S hv _ ho2 _ n3.1 n3.2.1 st hf3
+            rw [n3.2.2] at hs3 ho3
+            rw [hs3] at h
+            simp only at h
+            cases hf4 : findSub (cp "</rate>") (S.drop (off + (start + 13) + (e1 + 14) + (st + 6))) with
+            | none => simp [hf4] at h
+            | some e2 =>
+              simp only [hf4] at h
+              obtain ⟨hs4, ho4⟩ := slice_after_needle S hv _ ho3 _ n4.1 n4.2.1 e2 hf4
+              rw [n4.2.2] at hs4 ho4
+              split at h
+              · cases h
+              · rw [hs4] at h
+                simp only at h
+                have := ih _ ho4
+                cases hr : unLoop okRate fuel (S.drop (off + (start + 13) + (e1 + 14) + (st + 6) + (e2 + 7))) with
+                | error e =>
+                  rw [hr] at h this
+                  simp only at h
+                  injection h with h
+                  subst h
+                  exact this rfl
+                | ok ps => rw [hr] at h; cases h
+
+/-- the whole UN path: cache framing, parser, lookup — no panic for ANY cache contents -/
+theorem un_lookup_no_panic (okRate : Bytes → Bool) (contents : Bytes) (now maxAge : Nat) (cur : Bytes) :
+    lookup .un okRate contents now maxAge cur ≠ .error .panic := by
+  unfold lookup
+  cases hl : loadCached contents now maxAge with
+  | error e =>
+    simp only
+    intro h; injection h with h; subst h
+    exact loadCached_no_panic contents now maxAge hl
+  | ok xml =>
+    simp only
+    -- the XML is a suffix of the valid file, starting at the `;`, which is a character boundary
+    have hvalid : Fend.Ser.validUtf8 contents = true := by
+      unfold loadCached at hl
+      split at hl
+      · cases hl
+      · rename_i hnv; simpa using hnv
+    obtain ⟨k, hk, hxml⟩ : ∃ k, k ≤ contents.length ∧ xml = contents.drop k := by
+      have hsuf := loadCached_suffix contents xml now maxAge hl
+      exact ⟨contents.length - xml.length, by omega, List.suffix_iff_eq_drop.mp hsuf⟩
+    subst hxml
+    unfold parseUN
+    cases hf : findSub (cp "<UN_OPERATIONAL_RATES>") (contents.drop k) with
+    | none => simp
+    | some i =>
+      simp only
+      have hb : (cp "<UN_OPERATIONAL_RATES>") ≠ [] ∧ (∀ b ∈ cp "<UN_OPERATIONAL_RATES>", b < 128) := ⟨by decide, by decide⟩
+      -- `&s[i..]` at the START of a found ASCII needle: the needle's first byte is ASCII, hence not a continuation byte
+      have hspec := findSub_spec _ (contents.drop k) i hf
+      have h0 := hspec.2 0 (by have := List.length_pos_iff.mpr hb.1; omega)
+      have hbound : isBoundary (contents.drop k) i = true := by
+        have hlt : i < (contents.drop k).length := by
+          have := hspec.1; have := List.length_pos_iff.mpr hb.1; omega
+        simp only [isBoundary]
+        have hne : ¬ (i = (contents.drop k).length) := by omega
+        simp only [hne, if_false]
+        simp only [Nat.add_zero] at h0
+        rw [h0]
+        have : (cp "<UN_OPERATIONAL_RATES>")[0]? = some 60 := by decide
+        rw [this]; decide
+      simp only [sliceFrom, hbound, if_true]
+      have hdrop : (contents.drop k).drop i = contents.drop (k + i) := by simp [List.drop_drop, Nat.add_comm]
+      rw [hdrop]
+      have hle : k + i ≤ contents.length := by
+        have := hspec.1; simp at this; omega
+      cases hu : unLoop okRate ((contents.drop (k + i)).length + 1) (contents.drop (k + i)) with
+      | error e =>
+        simp only
+        intro h; injection h with h; subst h
+        exact unLoop_no_panic okRate contents hvalid _ (k + i) hle hu
+      | ok ps =>
+        simp only
+        split
+        · simp
+        · split <;> simp
 
 end Fend.C20
